@@ -8,6 +8,16 @@ CHECKS = [
   'level': 'Identities in 7 real variables (plus 36 for the STM block) decided for all values in the stated domain: Jacobian = derivative of the field, '
            'variational system = field + Jacobian*Phi in the code layout, every reported energy/Jacobi quantity has zero Lie derivative along the field. No loop bound is involved.',
   'note': 'float64 modelled as reals; chain-rule differentiation of the normal form is the derivative oracle; domain r1,r2 > 1e-3, 0 < mu <= 1/2; numba semantics = Python semantics (guarded by translator validation against the JIT build on every run)'},
+ {'id': 'C03',
+  'technique': 'symbolic execution of _compute_stm/_propagate_dynsys/_DirectedSystem with a recording integrator stub; z3 decides residual != 0 (QF_NRA)',
+  'level': 'For all states, mu and both directions: the right-hand side handed to the integrator is (forward * variational field) in all 42 components, with identity initial STM and consistent '
+           'row-major extraction; F^T Omega + Omega F = 0 identically (so the exact STM is symplectic for the canonical two-form); services pass the orbit\'s own state and period.',
+  'note': 'variational-equation and Liouville theorems turn the decided infinitesimal identities into the stated flow property; the numerical accuracy of the integrated STM is C02; tf >= 1e-3'},
+ {'id': 'C19',
+  'technique': 'path-exhaustive symbolic execution (z3 feasibility) of the connection kernels; KKT optimality certificates and filter contracts discharged by z3 per path',
+  'level': 'Every path of the closest-point routine over all 8 real coordinates satisfies the KKT conditions of the convex distance problem (global optimality); radius search and the whole backend.run filter '
+           '(mutual nearest, delta-v, label, sort, midpoint) are decided on every path for symbolic clouds up to the stated sizes.',
+  'note': 'bounded cloud sizes (2x2, 2x3; 3x3/3x2 thorough); pairwise squared distances abstracted to free non-negative reals inside backend.run (sound over-approximation); float ties outside the claim'},
 ]
 _BUILT = {c['id'] for c in CHECKS}
 NOT_APPLICABLE = [
